@@ -14,7 +14,7 @@ Monitors (all evaluated on every (diagram, i, j, left) request)
                            the way; wired-to-moving-box => refused (wiring model)
   index-error-iff-out-of-range
 """
-from verif.gen import kits
+from verif.gen import kits, provenance
 from verif.instrument import safe_repr
 from verif.models import meval, wiring
 from verif.models import interchange_model as im
@@ -135,8 +135,9 @@ def request(ctx, d, layers, arity, i, j, left, seeds, dims, InterchangerError):
     ctx.expect("refusal-iff-blocked", not wired,
                kind="moved past a box it shares a wire with", **witness)
     ctx.expect("same-boundary",
-               tykey(result.dom) == tykey(d.dom) and tykey(result.cod) == tykey(d.cod),
-               **witness)
+               tykey(result.dom) == tykey(d.dom) and tykey(result.cod) == tykey(d.cod)
+               and isinstance(result, type(d)),
+               result_class=type(result).__module__, **witness)
     order = moved_order(n, i, j)
     rboxes, dboxes = result.boxes, d.boxes
     same_boxes = len(rboxes) == n and all(
@@ -163,6 +164,44 @@ def request(ctx, d, layers, arity, i, j, left, seeds, dims, InterchangerError):
     return result
 
 
+def lookalike(kit, d):
+    """
+    A diagram that PRINTS like d without being d: rotation phases differing
+    beyond the printed digits (circuits), or the rigid diagram with the same
+    names (monoidal).  None when no such twin exists or it prints differently.
+    """
+    try:
+        if kit.name == "circuit":
+            boxes, changed = [], False
+            for box in d.boxes:
+                phase = getattr(box, "phase", None)
+                if isinstance(phase, float) and type(box).__name__ in (
+                        "Rx", "Rz", "Ry") and not changed:
+                    box = type(box)(phase + 1e-7)
+                    changed = True
+                boxes.append(box)
+            twin = type(d)(d.dom, d.cod, boxes, list(d.offsets)) if changed else None
+        elif kit.name == "monoidal":
+            from discopy import rigid
+
+            def ty(t):
+                return rigid.Ty(*[ob.name for ob in t.objects])
+            boxes = []
+            for box in d.boxes:
+                if type(box) is not kit.Box:
+                    return None
+                boxes.append(rigid.Box(box.name, ty(box.dom), ty(box.cod),
+                                       data=box.data, _dagger=box.is_dagger))
+            twin = rigid.Diagram(ty(d.dom), ty(d.cod), boxes, list(d.offsets))
+        else:
+            return None
+        if twin is None or repr(twin) != repr(d):
+            return None
+        return twin
+    except Exception:
+        return None
+
+
 def run_case(rng, ctx):
     from discopy.rewriting import InterchangerError
     kit = _KITS[ctx.index % len(_KITS)]
@@ -171,6 +210,9 @@ def run_case(rng, ctx):
     n = len(d)
     if n < 2:
         return
+    if kit.name in ("monoidal", "rigid", "tensor", "circuit") and rng.random() < .4:
+        how, d = provenance.via(rng, kit, d)
+        ctx.count("input_obtained_through:" + how)
     layers, arity = im.model_of(d)
     from verif.models import struct as _struct
     key_before = repr(_struct.key(d))
@@ -194,6 +236,14 @@ def run_case(rng, ctx):
                 refused += 1
             elif i != j:
                 moved += 1
+    # histories: the same requests on another diagram that prints like d
+    twin = lookalike(kit, d)
+    if twin is not None:
+        tlayers, tarity = im.model_of(twin)
+        for i, j in pairs[:12]:
+            request(ctx, twin, tlayers, tarity, i, j, rng.random() < .5,
+                    seeds[:1], dims, InterchangerError)
+        ctx.count("lookalike_twins_interchanged")
     # out-of-range indices: IndexError, nothing else
     for i, j in [(-1, 0), (0, -1), (n, 0), (0, n), (n + 3, n + 3), (-n, 1),
                  (rng.randint(-9, -1), rng.randrange(n)),
